@@ -138,6 +138,15 @@ Theorem C03_responder_requires_clean : forall asgi indep cs st q a,
 Proof. exact responder_requires_clean. Qed.
 Print Assumptions C03_responder_requires_clean.
 
+(* If no scripted action raises a BaseException or has an error handler that raises a non-HTTP
+   error, no exception leaves the app, for every stack, mode, route and fault placement. *)
+Theorem C03_benign_finished : forall asgi indep cs st q,
+  prepare asgi indep cs = Some st ->
+  forallb benign_comp cs = true -> benign_request q = true ->
+  exists s, snd (run_request indep st q) = Finished s.
+Proof. exact benign_finished. Qed.
+Print Assumptions C03_benign_finished.
+
 (* The executable oracle the harness applies to the recorded trace accepts the model. *)
 Theorem C03_oracle_sound : forall asgi indep cs st q,
   prepare asgi indep cs = Some st ->
